@@ -125,3 +125,31 @@ func vpH_C06_T_second_vacancy() {
 	vpAssert("C06.filled-in-bound", s.e.IsLeader() && s.cb.promotes >= 2)
 	vpAssert("C06.filled-in-bound:time", vpImplies(s.cb.promotes >= 2, s.cb.promoteAt <= tv+int64(600*time.Millisecond)))
 }
+
+// vpH_C06_T_restart_stuck: a follower's periodic Get is swallowed by the store (it fails only after the client's
+// 5s request time-out); Stop gives up waiting after 5s; the election is started again while that call is still
+// outstanding; later the record becomes vacant without notification: the restarted candidate must fill it.
+func vpH_C06_T_restart_stuck() {
+	H := time.Second
+	vpSetOpt("rand-fixed", 1)
+	s := vpFollowingInstance(H, nil)
+	s.st.noEvents = true
+	time.Sleep(450 * time.Millisecond) // first acquisition round is over; the next store operation is the periodic Get
+	s.kv.faults = []int{vpFaultHang}
+	s.kv.faultLeft = 1
+	s.kv.faultOps = "get"
+	s.kv.faultForce = true
+	s.kv.hangLat = 9 * time.Second // this request is answered (with an error) only after 9s
+	time.Sleep(100 * time.Millisecond)
+	_ = s.e.Stop()
+	_ = s.e.Start(vpRootCtx())
+	time.Sleep(6 * time.Second) // the stuck call of the previous run has returned by now
+	vpQuiesce()
+	s.st.write("env:other", "delete", nil, true, 0)
+	tv := vpNow()
+	time.Sleep(1200 * time.Millisecond)
+	vpQuiesce()
+	vpCover("C06.restart-stuck")
+	vpAssert("C06.no-give-up", s.e.IsLeader() && s.cb.promotes >= 1)
+	vpAssert("C06.no-give-up:time", vpImplies(s.cb.promotes >= 1, s.cb.promoteAt <= tv+int64(600*time.Millisecond)))
+}
